@@ -204,6 +204,7 @@ type Runner struct {
 	stdout *bufio.Reader
 	stderr *tailBuffer
 	served int
+	exited chan struct{} // closed when the child process itself has exited (its pipes may be kept open by grandchildren)
 }
 
 type tailBuffer struct {
@@ -251,6 +252,12 @@ func (r *Runner) start() error {
 		return err
 	}
 	r.cmd, r.stdin, r.stdout, r.served = cmd, in, bufio.NewReaderSize(out, 1<<20), 0
+	exited := make(chan struct{})
+	r.exited = exited
+	go func(p *os.Process) {
+		_, _ = p.Wait()
+		close(exited)
+	}(cmd.Process)
 	return nil
 }
 
@@ -326,7 +333,24 @@ func (r *Runner) RunJSON(b []byte) Verdict {
 	if to == 0 {
 		to = 120 * time.Second
 	}
+	exited := r.exited
 	select {
+	case <-exited:
+		// the executor process is gone; a verdict line may still be in the pipe
+		select {
+		case x := <-ch:
+			if x.err == nil {
+				var v Verdict
+				if err := json.Unmarshal(x.line, &v); err == nil {
+					r.kill()
+					return v
+				}
+			}
+		case <-time.After(200 * time.Millisecond):
+		}
+		st := r.stderr.String()
+		r.kill()
+		return crashVerdict("executor died", st)
 	case x := <-ch:
 		if x.err != nil {
 			// child died
